@@ -227,6 +227,8 @@ var subKinds = []string{"stringer", "stringer", "ptr-type", "value-type"}
 
 func wrapSub(kind string, s *vlib.Sub) (message.Subscriber, string) {
 	switch kind {
+	case "empty-stringer":
+		return &emptyNameSub{s}, ""
 	case "ptr-type":
 		return &anonSubA{s}, "c13.anonSubA"
 	case "value-type":
